@@ -158,8 +158,10 @@ def run(ctx):
     shared.eligible_bucket_rules(ctx, "R8", "guard")
     # ---- R7 a transition shared by several regions is selected once ---------------------
     sel = roles(ctx, "Interpreter").select
+    from sa.util import returned_name
+    SEL = returned_name(sel, "selected")
     apps = [x for x in own_nodes(sel.node) if isinstance(x, ast.Call) and isinstance(x.func, ast.Attribute) and x.func.attr == "append"
-            and dotted(x.func.value) == "selected"]
+            and dotted(x.func.value) == SEL]
     c.expect("R7", "appends to the selection list", len(apps), 1, sel, "the winner of a leaf is no longer appended to the selection: nominated transitions never fire")
     for x in apps:
         ok = False
